@@ -28,6 +28,10 @@ def oracle(p):
 def replay(case):
     import pickle, base64
     p = pickle.loads(base64.b64decode(case['pickle']))
+    if case.get('reassigned'):
+        touched, fresh = p
+        a, b = touched.encode(), fresh.encode()
+        return None if a == b else 'the re-used item encodes %s, a fresh one %s' % (a.hex()[:80], b.hex()[:80])
     return oracle(p)[0]
 
 
@@ -38,7 +42,8 @@ def run(chk):
                 '63, 64, item lists of length 0..7, integer fields at 0/1/mid/max, PDV payloads 0..70000 bytes, 0..5 PDVs, '
                 'plus seeded random values; oracle: real decode(encode(p)) = p and re-encoding = bytes; correspondence: the '
                 'Lean model decodes the real bytes to the same canonical value, re-encodes to the same bytes and computes the '
-                'same total length; a second stream of mutated encodings compares ok/error classification; non-trivial = '
+                'same total length; items built with default arguments; items re-used (values assigned through the public attributes '
+                'must be the values encoded); a second stream of mutated encodings compares ok/error classification; non-trivial = '
                 'PDUs with at least one variable item or PDV')
     chk.trusted += ['harness/pdugen.py canonical forms (injective text of the field values)']
     rnd = common.rng('c01')
@@ -62,6 +67,19 @@ def run(chk):
         if w != g:
             chk.broke('correspondence decodePdu/Pdu.enc (%s)' % label, 'impl  %s\nmodel %s' % (w[:400], g[:400]))
             break
+    # second use of an object: values assigned through the public attributes are the values encoded
+    for label, touched, fresh in pdugen.reassigned(rnd, chk.tier):
+        try:
+            a, b = touched.encode(), fresh.encode()
+        except Exception as e:  # pylint: disable=broad-except
+            a, b = repr(e), None
+        chk.case(label + ':' + (b.hex() if b else '?'), True, None)
+        chk.count('reassigned')
+        if a != b:
+            chk.violation('C01:' + label, '%s: an item given new values through its public attributes encodes %s; a fresh item with '
+                          'those values encodes %s' % (label, a.hex()[:120] if isinstance(a, bytes) else a, b.hex()[:120] if b else b),
+                          {'label': label, 'reassigned': True,
+                           'pickle': base64.b64encode(pickle.dumps((touched, fresh))).decode()})
     # malformed stream: ok/error classification and, when both decode, the same value
     mops, mimpl = [], []
     n = 1500 if chk.tier == 'quick' else 60000
